@@ -204,6 +204,9 @@ def run(ctx):
                                      Feat={"block", "section", "dupkey", "target"})))
             runs.append(("three_nest", dict(base, MaxItems=3, MaxDepth=2, PoolA={"w"}, PoolB={"int"}, PoolC={"w"}, Feat={"block", "section"},
                                             MutPool={"int"})))
+            # values that are each other's twin in another kind (1 / 1.0 / true, 42 / "42", 1e16 as float / as integer, 0.1+0.2 / 0.3)
+            runs.append(("twins", dict(base, MaxItems=1, PoolA={"one", "fone", "t", "int", "numstr", "f1e16", "i1e16", "f17", "float"}, Feat={"block"},
+                                       MutPool={"one", "fone", "t", "int", "numstr", "f1e16", "i1e16", "f17", "float"})))
             runs.append(("headers", dict(base, MaxItems=1, PoolA={"w"}, HeaderMode="all", HeaderMaxBody=1, MutPool={"int"})))
         cases, seen = [], set()
         for tag, consts in runs:
